@@ -6,7 +6,9 @@ use crate::job::{Job, GEN_COUNT};
 use crate::pool;
 use crate::stats::Stats;
 use crate::symbol;
+#[cfg(feature = "render")]
 use fast_qr::convert::svg::SvgBuilder;
+#[cfg(feature = "render")]
 use fast_qr::convert::{Builder, Shape};
 use fast_qr::Module;
 use oracle::rng::mix;
@@ -61,6 +63,7 @@ pub fn jobs(ctx: &Ctx) -> Vec<Job> {
 }
 
 /// user callback: writes the raw module byte it was handed into the path string
+#[cfg(feature = "render")]
 fn spy(y: usize, x: usize, m: Module) -> String {
     format!("M{x},{y}h{}", m.0)
 }
@@ -98,6 +101,7 @@ pub fn observe(ctx: &Ctx, st: &mut Stats, job: &Job) {
         st.reach("version_level_mask", ((exp.version * 4 + exp.level) * 8 + fm) as u64);
     }
 
+    #[cfg(feature = "render")]
     if job.fam == FAMS[1] {
         let margin = job.aux[0] as usize;
         // one callback layer, a built-in layer + a callback layer, or two callback layers (every layer's callback must
